@@ -112,6 +112,9 @@ def gen_history(rnd, nsteps):
                                             {"op": "with_scheme", "v": progs.T("https")}, {"op": "with_fragment", "v": [progs.T("fr")]},
                                             {"op": "with_host", "v": progs.T("other.example")},
                                             {"op": "with_query", "q": {"form": "str", "s": progs.T("k=v"), "pairs": []}}])})
+        elif r < 0.515:
+            # the verbatim twin of a pool URL: URL(str(u), encoded=True) -- an object of its own, handed out by another cache
+            steps.append({"k": "strtwin", "slot": rnd.randrange(1000)})
         elif r < 0.53:
             # the same modifier with ARGUMENTS that compare equal (and hash alike) but must render differently: 0.0 / -0.0 / 0,
             # 1 / 1.0, 2**53 / float(2**53) -- whichever is seen first must not decide what the other one yields
@@ -242,6 +245,12 @@ def run_history(yarl, steps, mode, run_id, rnd):
                         for w in order:
                             res, u = outcome_of(lambda: U._apply(w, st["st"], None))
                             facts.append({"k": "call:" + J([st["st"], val5(w), None]), "v": J(canon_result(res, yarl))})
+            elif k == "strtwin":
+                u = pool[slot(st["slot"])]
+                res, t = outcome_of(lambda: yarl.URL(str(u), encoded=True))
+                facts.append({"k": "call:" + J(["strtwin", val5(u)]), "v": J(canon_result(res, yarl))})
+                if t is not None:
+                    add(t)
             elif k == "eqargs":
                 recv = pool[slot(st["slot"])]
                 stps = [{"op": st["op"], "q": {"form": st["form"], "s": [], "pairs": [[progs.T("k"), v]]}} for v in st["vals"]]
@@ -285,6 +294,9 @@ def run_history(yarl, steps, mode, run_id, rnd):
                 facts.append({"k": "call:" + J([how, val5(u)]), "v": J(canon_result(res, yarl))})
                 if t is not None:
                     add(t)
+                if mode == "warm":        # a round trip must not touch ANY existing object: all of them, not a sample
+                    for j2 in range(len(pool)):
+                        facts.append({"k": f"obj:{run_id}:{gen[j2]}", "v": J(val5(pool[j2]))})
             elif k == "cache_clear":
                 yarl.cache_clear()
             elif k == "cache_configure":
